@@ -43,6 +43,7 @@ namespace c14
         static size_t size() { return CAN + sizeof(Obj) + CAN; }
         Obj *ptr() { return reinterpret_cast<Obj *>(mem + CAN); }
         Obj &operator*() { return *ptr(); }
+        Obj *operator->() { return ptr(); }
         bool canaries_ok() const
         {
             for (size_t i = 0; i < CAN; i++)
